@@ -981,6 +981,8 @@ func RunDictLevel(c *hx.Ctx) {
 	paramKinds(c)
 	notConforming(c)
 	ccittCases(c)
+	ccittGeometryEdges(c)
+	ccittBoundCases(c)
 	junkDicts(c)
 	sessions(c)
 }
